@@ -163,13 +163,13 @@ Theorem C18_bodyless_classes : forall cl, In cl classes ->
 Proof. exact bodyless_classes. Qed.
 Print Assumptions C18_bodyless_classes.
 
-Theorem C18_explicit_body_as_is : forall cfg cl i a b,
-  b <> [] -> rs_body (call cfg cl i a false (Some b)) = Some b.
+(* a body the application supplied - empty or not - is sent as is *)
+Theorem C18_explicit_body_as_is : forall cfg cl i a b, rs_body (call cfg cl i a false (Some b)) = Some b.
 Proof. exact call_explicit. Qed.
 Print Assumptions C18_explicit_body_as_is.
 
-Theorem C18_otherwise_generated : forall cfg cl i a ex,
-  c_empty cl = false -> (ex = None \/ ex = Some []) -> call cfg cl i a false ex = generate cfg cl i a.
+Theorem C18_otherwise_generated : forall cfg cl i a,
+  c_empty cl = false -> call cfg cl i a false None = generate cfg cl i a.
 Proof. exact call_generated. Qed.
 Print Assumptions C18_otherwise_generated.
 
